@@ -71,6 +71,7 @@ type Run struct {
 	minNT    int
 	inconcl  []string
 	maxViol  int
+	violKeys map[string]int
 }
 
 // ReplaySpec is the content of a replay file: enough to re-run exactly one case.
@@ -88,7 +89,7 @@ func NewRun(t *testing.T, id string) *Run {
 	r := &Run{
 		T: t, ID: id, Tier: "quick", Seed: 1, Level: "exploration", start: time.Now(),
 		distinct: map[string]struct{}{}, counts: map[string]int64{}, extra: map[string]interface{}{},
-		known: map[string]KnownFinding{}, knownHit: map[string]int{}, minNT: 2, maxViol: 20,
+		known: map[string]KnownFinding{}, knownHit: map[string]int{}, minNT: 2, maxViol: 40, violKeys: map[string]int{},
 	}
 	if s := os.Getenv("VERIF_TIER"); s == "thorough" {
 		r.Tier = "thorough"
@@ -210,8 +211,9 @@ func (r *Run) Violation(caseID, key string, detail interface{}) {
 		r.knownHit[key]++
 		return
 	}
-	if len(r.viol) >= r.maxViol {
-		r.counts["violations_not_written"]++
+	r.violKeys[key]++
+	if r.violKeys[key] > 1 || len(r.viol) >= r.maxViol {
+		// one witness per distinct signature; the rest is only counted
 		return
 	}
 	dir := filepath.Join(VerifDir(), "replays")
@@ -223,7 +225,7 @@ func (r *Run) Violation(caseID, key string, detail interface{}) {
 	_ = os.WriteFile(path, bz, 0o644)
 	r.viol = append(r.viol, Violation{Key: key, Detail: detail, Replay: path})
 	fmt.Printf("VIOLATION property=%s replay=%s\n", r.ID, path)
-	fmt.Printf("  key=%s detail=%s\n", key, trunc(string(mustJSON(detail)), 1500))
+	fmt.Printf("  key=%s detail=%s\n", key, trunc(string(mustJSON(detail)), 600))
 }
 
 // Violations returns how many unlisted violations were seen.
@@ -273,6 +275,11 @@ func (r *Run) Finish() {
 		kh[k] = v
 	}
 	cov["known_findings_hit"] = kh
+	vk := map[string]int{}
+	for k, v := range r.violKeys {
+		vk[k] = v
+	}
+	cov["violations_by_signature"] = vk
 	if len(r.samples) == 0 {
 		cov["samples"] = []interface{}{"(no case reached sampling)"}
 	}
